@@ -203,3 +203,69 @@ let judge_c07 (_euis : n list) (steps : step list) : string =
      | _ -> ());
     if cur <> [] then prev := cur) steps;
   !verdict
+
+(* ---------- C04 / C05: join-requests, judged by the reference device ---------- *)
+let rec take k l = if k <= 0 then [] else match l with [] -> [] | x :: t -> x :: take (k - 1) t
+let rec drop k l = if k <= 0 then l else match l with [] -> [] | _ :: t -> drop (k - 1) t
+
+(* the registered device a 23-byte join-request names, and whether the specification honours it *)
+let spec_join (s : srv) (raw : n list) =
+  if List.length raw <> 23 then None
+  else match raw with
+    | b0 :: _ when int_of_n b0 / 32 = 0 && int_of_n b0 mod 4 = 0 ->
+      let appeui = le_val (take 8 (drop 1 raw)) and deveui = le_val (take 8 (drop 9 raw)) in
+      let dn2 = take 2 (drop 17 raw) in
+      (match (dt_get s.s_tab deveui).ds_row with
+       | None -> None
+       | Some r ->
+         let mic_ok = mic4 e r.d_appkey (take 19 raw) = drop 19 raw in
+         let nonce = int_of_n (le_val (List.rev dn2)) in
+         let used = List.exists (fun x -> int_of_n x = nonce) (dt_get s.s_tab deveui).ds_nonces in
+         if mic_ok && r.d_appeui = appeui && List.mem appeui s.s_apps && (s.s_cfg.cfg_disable_nonce_check || not used)
+         then Some (r, dn2) else None)
+    | _ -> None
+
+let judge_join ~(c05 : bool) (_euis : n list) (steps : step list) : string =
+  let verdict = ref "ok" in
+  let prev = ref [] and prev_dump = ref "" in
+  List.iter (fun st ->
+    let dump = dump_of st.impl_obs in
+    let cur = parse_dump dump in
+    (match st.ev with
+     | Rx (rx, _, _) when !verdict = "ok" && is_join_typed rx.rx_raw ->
+       (match split_obs st.impl_obs with
+        | None -> ()
+        | Some (ds, ps, _) ->
+          (match spec_join st.pre rx.rx_raw with
+           | None ->
+             (* forged / altered / reused nonce / unknown device: no effect, no answer *)
+             if ds <> [] || ps <> [] then verdict := (if c05 then "bad:reused-nonce-or-forged-join-answered" else "bad:forged-join-answered")
+             else if dump <> !prev_dump then verdict := (if c05 then "bad:refused-join-changed-state" else "bad:forged-join-changed-state")
+           | Some (r, dn2) ->
+             let eui = hex_of_n r.d_eui in
+             (match ds with
+              | [one] ->
+                let ja = bytes_of_hex (List.hd (String.split_on_char ':' one)) in
+                let rx1 = List.nth (String.split_on_char ':' one) 1 in
+                (match ref_on_join_accept e r.d_appkey dn2 ja with
+                 | None -> verdict := "bad:join-accept-not-decodable-by-device"
+                 | Some ((addr, nwk), app) ->
+                   (match find_dev cur eui with
+                    | None -> verdict := "bad:shape"
+                    | Some d ->
+                      if rx1 <> "5" then verdict := "bad:join-accept-rx1-delay"
+                      else if n_of_hex d.x_addr <> addr || d.x_nwk <> hex_of_bytes nwk || d.x_app <> hex_of_bytes app then
+                        verdict := "bad:stored-session-differs-from-join-accept"
+                      else if d.x_fup <> 0 || d.x_fdn <> 0 then verdict := "bad:counters-not-zero-after-join"))
+              | [] -> verdict := "bad:valid-join-not-answered"
+              | _ -> verdict := "bad:join-answered-more-than-once")))
+     | (Rx _ | Sub _) when !verdict = "ok" ->
+       (* keys only change through an honoured join *)
+       List.iter (fun d -> match find_dev !prev d.x_eui with
+           | Some p when p.x_nwk <> d.x_nwk || p.x_app <> d.x_app || p.x_addr <> d.x_addr -> verdict := "bad:session-changed-without-join"
+           | _ -> ()) cur
+     | _ -> ());
+    if cur <> [] then (prev := cur; prev_dump := dump)) steps;
+  !verdict
+let judge_c04 = judge_join ~c05:false
+let judge_c05 = judge_join ~c05:true
